@@ -168,13 +168,13 @@ def check_input_date : SetArgs → PyRes Epoch
   | .many (.ymd y m d _) => Epoch.init (.many (.ymd y m d []))
 
 /-- Right operand of an operator: a number (`int`/`float`), an `Epoch`, or anything else. -/
-inductive Operand where
+inductive EpOperand where
   | num (x : Num)
   | epoch (e : Epoch)
   | other
 
 /-- `Epoch.__add__(self, b)` (Epoch.py:1910-1913). -/
-def Epoch.add (self : Epoch) : Operand → PyRes Epoch
+def Epoch.add (self : Epoch) : EpOperand → PyRes Epoch
   -- return Epoch(self._jde + float(b))
   | .num b => Epoch.init (.number (self.jde + b))
   | _ => .error .typeError
@@ -185,7 +185,7 @@ inductive SubRes where
   | days (x : Num)
 
 /-- `Epoch.__sub__(self, b)` (Epoch.py:1943-1948). -/
-def Epoch.sub (self : Epoch) : Operand → PyRes SubRes
+def Epoch.sub (self : Epoch) : EpOperand → PyRes SubRes
   -- return Epoch(self._jde - b)
   | .num b => match Epoch.init (.number (self.jde - b)) with
     | .error err => .error err
@@ -195,12 +195,12 @@ def Epoch.sub (self : Epoch) : Operand → PyRes SubRes
   | .other => .error .typeError
 
 /-- `Epoch.__iadd__(self, b)`: `self = self + b; return self` (the name is rebound to a new object). -/
-def Epoch.iadd (self : Epoch) : Operand → PyRes Epoch
+def Epoch.iadd (self : Epoch) : EpOperand → PyRes Epoch
   | .num b => Epoch.add self (.num b)
   | _ => .error .typeError
 
 /-- `Epoch.__isub__(self, b)`: `self = self - b; return self`. -/
-def Epoch.isub (self : Epoch) : Operand → PyRes Epoch
+def Epoch.isub (self : Epoch) : EpOperand → PyRes Epoch
   | .num b => match Epoch.sub self (.num b) with
     | .ok (.epoch e) => .ok e
     | .ok (.days _) => .error .other
@@ -208,7 +208,7 @@ def Epoch.isub (self : Epoch) : Operand → PyRes Epoch
   | _ => .error .typeError
 
 /-- `Epoch.__radd__(self, b)`: `return self.__add__(b)`. -/
-def Epoch.radd (self : Epoch) : Operand → PyRes Epoch
+def Epoch.radd (self : Epoch) : EpOperand → PyRes Epoch
   | .num b => Epoch.add self (.num b)
   | _ => .error .typeError
 
@@ -220,7 +220,7 @@ def Epoch.toFloat (self : Epoch) : Num := self.jde
 def Epoch.hash (floatHash : Num → Int) (self : Epoch) : Int := floatHash (Epoch.toFloat self)
 
 /-- `Epoch.__eq__(self, b)` (Epoch.py:2066-2071), `TOL = 1e-10`. -/
-def Epoch.eq (self : Epoch) : Operand → PyRes Bool
+def Epoch.eq (self : Epoch) : EpOperand → PyRes Bool
   -- return abs(self._jde - float(b)) < TOL
   | .num b => .ok (plt (pabs (self.jde - b)) 1e-10)
   -- return abs(self._jde - b._jde) < TOL
@@ -228,31 +228,31 @@ def Epoch.eq (self : Epoch) : Operand → PyRes Bool
   | .other => .error .typeError
 
 /-- `Epoch.__ne__`: `return not self.__eq__(b)`. -/
-def Epoch.ne (self : Epoch) (b : Operand) : PyRes Bool :=
+def Epoch.ne (self : Epoch) (b : EpOperand) : PyRes Bool :=
   match Epoch.eq self b with
   | .ok r => .ok (!r)
   | .error err => .error err
 
 /-- `Epoch.__lt__(self, b)` (Epoch.py:2109-2114). -/
-def Epoch.lt (self : Epoch) : Operand → PyRes Bool
+def Epoch.lt (self : Epoch) : EpOperand → PyRes Bool
   | .num b => .ok (plt self.jde b)
   | .epoch b => .ok (plt self.jde b.jde)
   | .other => .error .typeError
 
 /-- `Epoch.__ge__`: `return not self.__lt__(b)`. -/
-def Epoch.ge (self : Epoch) (b : Operand) : PyRes Bool :=
+def Epoch.ge (self : Epoch) (b : EpOperand) : PyRes Bool :=
   match Epoch.lt self b with
   | .ok r => .ok (!r)
   | .error err => .error err
 
 /-- `Epoch.__gt__(self, b)` (Epoch.py:2148-2153). -/
-def Epoch.gt (self : Epoch) : Operand → PyRes Bool
+def Epoch.gt (self : Epoch) : EpOperand → PyRes Bool
   | .num b => .ok (plt b self.jde)
   | .epoch b => .ok (plt b.jde self.jde)
   | .other => .error .typeError
 
 /-- `Epoch.__le__`: `return not self.__gt__(b)`. -/
-def Epoch.le (self : Epoch) (b : Operand) : PyRes Bool :=
+def Epoch.le (self : Epoch) (b : EpOperand) : PyRes Bool :=
   match Epoch.gt self b with
   | .ok r => .ok (!r)
   | .error err => .error err
